@@ -276,7 +276,7 @@ pub fn run(seed: u64, n: usize, out: &mut Out, tier: &str) {
                 let mut tags: Vec<String> = e.verif_blocker().tags_enabled();
                 tags.sort();
                 let case = c01::Case { lines: netlines.clone(), optimize: w.optimize, tags };
-                for q in w.queries.iter().step_by(if tier == "quick" { 3 } else { 1 }) {
+                for q in w.queries.iter().step_by(if tier == "quick" { 3 } else { 4 }) {
                     if let Q::Net { url, src, ty } = q {
                         if let Some(rq) = make_req(url, src, ty) {
                             if url.is_ascii() {
